@@ -45,6 +45,12 @@ Definition completes (cfg : config) (dial tls : bool) (p : persist) (s : list si
              s2 = SProceed :: SHeader id1 :: SFeatures f1 :: s5 /\ auth_completes cfg p f1 s5
     end.
 
+(* over the WebSocket transport: stream open, no STARTTLS (the transport is secure from the
+   start or not at all: then only with Insecure), then the rest *)
+Definition completes_ws (cfg : config) (dial secure : bool) (p : persist) (s : list sitem) : Prop :=
+  dial = true /\ (secure = true \/ c_insecure cfg = true) /\
+  exists id f s2, s = SHeader id :: SFeatures f :: s2 /\ auth_completes cfg p f s2.
+
 (* the order in which requests may appear (RFC 6120 order), as a recogniser:
    open [starttls open] [auth [open [resume] [bind [session] [enable]]]] *)
 Definition after_bind (l : list creq) : bool :=
